@@ -61,6 +61,8 @@ if "arc_swap" in demo_src or "unsize" in demo_src:
 readme = open(src + "/README.md").read() if os.path.exists(src + "/README.md") else ""
 if "--no-default-features" in readme:
     feat = " --no-default-features"  # the change only shows in a no_std build of the crate
+if "SEEDFEAT" in os.environ:
+    feat = os.environ["SEEDFEAT"]  # the heuristics above guessed wrong for this seed
 rc0, out0 = sh(demo_cmd + feat, cwd=VW)
 meta["demo_without_patch"] = {"cmd": demo_cmd + feat, "rc": rc0, "tail": out0[-600:]}
 rc, out = sh("git apply %s" % patch, cwd=VW)
